@@ -140,6 +140,11 @@ Theorem letter_case_is_the_same_owner :
 Proof. exact ES_case. Qed.
 Print Assumptions letter_case_is_the_same_owner.
 
+Theorem letter_case_of_a_relative_name_is_the_same_owner :
+  forall c r r', wfc c -> Valid r -> Valid r' -> ci r r' -> is_absolute r = false -> ES c c r r'.
+Proof. exact ES_case_rel. Qed.
+Print Assumptions letter_case_of_a_relative_name_is_the_same_owner.
+
 (* ---------------------------------------------------------------- what the reference model predicts *)
 (* get after put on the reference store: the stored rdataset; CNAME / other-data exclusivity *)
 Theorem reference_get_after_put :
